@@ -451,23 +451,29 @@ func c13R5(h H) {
 		}
 	}
 	if sp := h.fn("R5", fcPkg, "Rule.splitPos"); sp != nil {
-		cs := guardEdges(sp, true, func(v ssa.Value) bool { return isGlobalLoad(v, "CaseSensitivePath") })
-		okAll, n := true, 0
-		allInstrs(sp, func(in ssa.Instruction) {
-			c, ok := in.(*ssa.Call)
-			if !ok || calleeName(&c.Call) != "strings.Index" {
-				return
-			}
+		// decided as a table (E10, concrete strings)
+		type cs struct {
+			path, split string
+			sens        bool
+			want        int64
+		}
+		bad, n := "", 0
+		for _, c := range []cs{
+			{"/a/index.php/info", ".php", false, 8}, {"/a/index.php/info", ".php", true, 8},
+			{"/App/Index.PHP/info", ".php", false, 10}, {"/App/Index.PHP/info", ".php", true, -1},
+			{"/app/index.php", ".PHP", false, 10}, {"/app/index.php", ".PHP", true, -1},
+			{"/app/static.txt", ".php", false, -1}, {"/x.php/y.php", ".php", false, 2},
+		} {
 			n++
-			if len(cs) > 0 && onlyVia(sp, in, cs) {
-				return
+			recv := astruct{map[string]aval{"SplitPath": astr(c.split)}}
+			env := &absEnv{noFork: true, maxSteps: 20000, globals: map[string]*aobj{"CaseSensitivePath": {name: "CaseSensitivePath", typ: types.Typ[types.Bool], f: map[string]aval{"": abool(c.sens)}}}}
+			res, und := env.run(sp, []aval{recv, astr(c.path)})
+			if got, ok := res.(aint); und != "" || !ok || int64(got) != c.want {
+				bad = sprintf("splitPos(%q) with split string %q and CaseSensitivePath=%v is %s, specification says %d %s", c.path, c.split, c.sens, describeAval(res), c.want, und)
+				break
 			}
-			low := func(v ssa.Value) bool { return isResultOf(v, 0, "strings.ToLower") }
-			if !(low(c.Call.Args[0]) && low(c.Call.Args[1])) {
-				okAll = false
-			}
-		})
-		r.Check(okAll && n > 0, "R5", "fastcgi.Rule.splitPos/casefolded", sp.Pos(), "the split string is found regardless of letter case unless paths are case sensitive")
+		}
+		r.Check(bad == "", "R5", "fastcgi.Rule.splitPos/casefolded", sp.Pos(), "the split string is found regardless of letter case unless paths are case sensitive", sprintf("%d cases evaluated", n), bad)
 	}
 }
 
